@@ -538,9 +538,10 @@ def _untouched(ck, p, byk):
     blocked = [q for q in cg.funcs if q.startswith(doc) and (q.endswith("::parse") or "::new" in q.split(doc)[1])]
     offenders = []
     n_pass = 0
-    for bi, t in f.calls():
-        g = p.fns.get(t["f"].get("inst") or "")
-        if g is None or not g.name.startswith(doc) or not cfg.dominates(bi, nb) or bi == nb:
+    # passes that are new since the reference tree were spliced into parse: they count as passes too
+    spliced = [(None, {"ln": f.blocks[0]["t"].get("ln", 0)}, h) for n_, h in getattr(p, "new_helpers", {}).items() if n_ in f.d.get("inlined", []) and n_.startswith(doc)]
+    for bi, t, g in [(bi, t, p.fns.get(t["f"].get("inst") or "")) for bi, t in f.calls()] + spliced:
+        if g is None or not g.name.startswith(doc) or (bi is not None and (not cfg.dominates(bi, nb) or bi == nb)):
             continue
         n_pass += 1
         # the pass and everything of the document module it reaches (closures, pattern constructors, the
